@@ -369,8 +369,9 @@ def main(prop, tier, seed):
                                 {"domain synchronous reset input held low after power-on",
                                  "all clock domains of a unit tick together (one step = one edge)" }),
           "wall_s": round(wall, 2), "violations": len(violations)}
-    os.makedirs(os.path.join(ROOT, "evidence"), exist_ok=True)
-    json.dump(ev, open(os.path.join(ROOT, "evidence", f"{prop}.json"), "w"), indent=1, default=str)
+    evdir = "evidence_scratch" if os.environ.get("HWV_REPO") else "evidence"     # self-test runs never overwrite real evidence
+    os.makedirs(os.path.join(ROOT, evdir), exist_ok=True)
+    json.dump(ev, open(os.path.join(ROOT, evdir, f"{prop}.json"), "w"), indent=1, default=str)
 
     # ------------------------------------------------------------------ verdict
     print(f"[{prop}] tier={tier} contracts={len(ctxs)} obligations={n_ob} discharged={n_dis} "
